@@ -3,7 +3,7 @@ import FluentProofs.ParserLocalDefs
 # Locality of the parser, PREFIX family, part 1: the leaf scanners
 
 Under `h : Pre n s₁ s₂` (`s₁` has size `n` and ends with a line feed, `s₂` agrees with `s₁` below `n` and has the end
-of input or a letter / `-` at `n`) every leaf function gives the same result on both sources: the blank skippers
+of input or a `stopByte` at `n`) every leaf function gives the same result on both sources: the blank skippers
 and the slicing functions at every position `≤ n`, the scanners at every position `< n` (they stop at the line feed
 at `n - 1`).
 -/
@@ -46,22 +46,23 @@ theorem Pre.succ_lt (h : Pre n s₁ s₂) {p : Nat} {b : UInt8} (hb : s₁[p]? =
   · omega
 
 /-- the byte of `s₂` at `n` is none of the bytes the parser looks for -/
-theorem Pre.ne_n (h : Pre n s₁ s₂) {c : UInt8} (hc : isReal c = false) : s₂[n]? ≠ some c := by
+theorem Pre.ne_n (h : Pre n s₁ s₂) {c : UInt8} (hc : stopByte c = false) : s₂[n]? ≠ some c := by
   intro hn
   rcases h.stop with h1 | ⟨b, hb, hr⟩
   · have := get_lt hn; omega
   · rw [hn] at hb; cases hb; rw [hc] at hr; cases hr
 
-theorem pre_isReal_lt : ∀ b : UInt8, isReal b = true → b < 128 := by
+theorem pre_stopByte_bnd : ∀ b : UInt8, stopByte b = true → ((b &&& 0xC0) != 0x80) = true := by
   apply forall_uint8; decide +kernel
 
-theorem Pre.asc_n (h : Pre n s₁ s₂) : s₂.size = n ∨ ∃ b, s₂[n]? = some b ∧ b < 128 := by
+/-- `n` is a char boundary of `s₂` -/
+theorem Pre.bnd_n (h : Pre n s₁ s₂) : isBoundary s₂ n = true := by
   rcases h.stop with h1 | ⟨b, hb, hr⟩
-  · exact Or.inl h1
-  · exact Or.inr ⟨b, hb, pre_isReal_lt b hr⟩
+  · rw [← h1]; exact bnd_size s₂
+  · simp [isBoundary, hb, pre_stopByte_bnd b hr]
 
-/-- the two sources have the same byte at `p ≤ n` as far as a byte `c` that is no letter and not `-` is concerned -/
-theorem Pre.cur (h : Pre n s₁ s₂) {p : Nat} (hp : p ≤ n) {c : UInt8} (hc : isReal c = false) :
+/-- the two sources have the same byte at `p ≤ n` as far as a byte `c` that is no `stopByte` is concerned -/
+theorem Pre.cur (h : Pre n s₁ s₂) {p : Nat} (hp : p ≤ n) {c : UInt8} (hc : stopByte c = false) :
     isCurrentByte s₂ p c = isCurrentByte s₁ p c := by
   unfold isCurrentByte
   by_cases hpn : p = n
@@ -259,8 +260,8 @@ theorem expectByte_pre (h : Pre n s₁ s₂) {p : Nat} (hp : p < n) (b : UInt8) 
 theorem takeByteIf_pre (h : Pre n s₁ s₂) {p : Nat} (hp : p < n) (b : UInt8) : takeByteIf s₂ p b = takeByteIf s₁ p b := by
   simp only [takeByteIf, h.cur_lt hp]
 
-/-- at `p ≤ n` for a byte that is no letter and not `-` -/
-theorem takeByteIf_pre' (h : Pre n s₁ s₂) {p : Nat} (hp : p ≤ n) {b : UInt8} (hb : isReal b = false) :
+/-- at `p ≤ n` for a byte that is no `stopByte` -/
+theorem takeByteIf_pre' (h : Pre n s₁ s₂) {p : Nat} (hp : p ≤ n) {b : UInt8} (hb : stopByte b = false) :
     takeByteIf s₂ p b = takeByteIf s₁ p b := by
   simp only [takeByteIf, h.cur hp hb]
 
@@ -328,9 +329,7 @@ theorem isBoundary_pre (h : Pre n s₁ s₂) {i : Nat} (hi : i ≤ n) : isBounda
   · subst hin
     have e1 : isBoundary s₁ i = true := by rw [← h.size]; exact bnd_size s₁
     rw [e1]
-    rcases h.asc_n with hs | ⟨b, hb, hlt⟩
-    · rw [← hs]; exact bnd_size s₂
-    · exact bnd_of_ascii hb hlt
+    exact h.bnd_n
   · have hlt : i < n := by omega
     have h2 := h.lt₂ hlt
     have e1 : (i == s₂.size) = (i == s₁.size) := by
